@@ -2,7 +2,7 @@
   Per-program evaluation of the DECIDABLE hypotheses of `C01_composition` / `C01_middle` / `C12_of_linkChecks`
   and of the decidable content of the links of `C12_chain`: used by the checks C01 and C12 on every accepted
   program of a run (request `links <file.sc>` of sccmodel).
-  One line: `OK [validMain|noValidMain] [sequenced] [labelUnsafe] [frag] [overCapacity]` | `REJECTED ..` | `FAIL <names of failing checks>`.
+  One line: `OK [validMain|noValidMain] [sequenced] [labelUnsafe] [frag] [int] [overCapacity]` | `REJECTED ..` | `FAIL <names of failing checks>`.
 
   * the hypotheses proper (the theorems take them as `… = true`):
       `noMainCall`   `Scc.Fun.noMainCall p'`              (only reported for programs with a valid `main`)
@@ -14,6 +14,9 @@
       `C01_fragChecks p'` is reported as the TAG `frag`: the program is in the fragment of
                      `C01_composition_frag` (fun2core's semantics is a theorem there; outside it the
                      hypothesis `C01_link_fun2core_sem` is used).
+      `C01_intChecks p'` is reported as the TAG `int`: the back end of the program is in the integer fragment
+                     (`IntProg`, `ProgInRange`, capacity, the routine text loads) in which the x86-64 link is
+                     a theorem (`C01_x86_int`); `frag int` together: `C01_int_fragment`, no hypothesis left.
       `C01_capacity p'` is reported as the TAG `overCapacity` when it FAILS: the static capacity condition of
                      Theorem A (`C06Generic.ProgWithinCapacity` of S5: fewer than 500000 live variables in
                      every reachable context), a hypothesis of part (3) of `C01_middle` and of the lemmas through
@@ -64,6 +67,7 @@ def linksLine (src : String) : String :=
             (if Fun.Sequenced p' then " sequenced" else "") ++
             (if C01_labelSafe p' then "" else " labelUnsafe") ++
             (if C01_fragChecks p' then " frag" else "") ++
+            (if C01_intChecks p' then " int" else "") ++
             (if C01_capacity p' then "" else " overCapacity")
         else "FAIL " ++ " ".intercalate bad
 
